@@ -293,6 +293,69 @@ IO_PLAN = {
 }
 
 
+FUZZ = {"name": "fuzz-text", "units": [("fuzz_text.cpp", [])]}
+
+
+def run_libfuzzer_c15(prop, seed, res, runs_per_worker=400000, workers=16):
+    """Coverage-guided fuzzing of the text loaders (thorough tier). Returns a summary for the evidence file and appends
+    violations to res for every artifact libFuzzer keeps (allocation-limit artifacts are not verdicts)."""
+    import re
+    import shutil
+    import subprocess
+    binary = V.build_engine(FUZZ, "clang-fuzz")
+    wd = V.work_dir("fuzz")
+    corpus = os.path.join(wd, "corpus")
+    os.makedirs(corpus)
+    seeds = [b"# Vertex1 Vertex2 Label\n0 1 a\n1 2 b c\n", b"0 1\n\t2   3 \n# x\n3 3", b"a b\nb c 12\n c a", b"10 2000 7\n-1 0\n", b"1 99999999999 1\n 0x1 1e3\n", b"\n \n#\n0\n"]
+    for i, sd in enumerate(seeds):
+        with open(os.path.join(corpus, "seed%d" % i), "wb") as fh:
+            fh.write(sd)
+    env = dict(os.environ)
+    env.update(V.SAN_ENV)
+    env["VERIF_FUZZ_DIR"] = wd
+    procs = []
+    for k in range(workers):
+        cdir = os.path.join(wd, "corpus%d" % k)
+        shutil.copytree(corpus, cdir)
+        cmd = [binary, "-runs=%d" % runs_per_worker, "-seed=%d" % (seed * 64 + k + 1), "-max_len=400", "-artifact_prefix=%s/art%d-" % (wd, k), "-timeout=25",
+               "-rss_limit_mb=6000", "-malloc_limit_mb=2048", "-print_final_stats=1", cdir]
+        errp = os.path.join(wd, "fuzz%d.err" % k)
+        procs.append((k, subprocess.Popen(cmd, stdout=subprocess.DEVNULL, stderr=open(errp, "w"), env=env, cwd=wd), errp))
+    executed, cov, failed = 0, 0, 0
+    for k, p, errp in procs:
+        try:
+            rc = p.wait(timeout=5400)
+        except subprocess.TimeoutExpired:
+            p.kill()
+            rc = None
+        err = open(errp, errors="replace").read()
+        m = re.search(r"stat::number_of_executed_units:\s*(\d+)", err)
+        if m:
+            executed += int(m.group(1))
+        for mm in re.finditer(r"cov: (\d+)", err):
+            cov = max(cov, int(mm.group(1)))
+        if rc not in (0,):
+            failed += 1
+            arts = [f for f in os.listdir(wd) if f.startswith("art%d-" % k)]
+            if re.search(r"out-of-memory|allocation-size-too-big|malloc limit", err) and not re.search(r"VERIF:|SEGV|heap-buffer|stack-buffer|use-after|Assertion", err):
+                res.counters["libfuzzer_allocation_limit_artifacts_not_verdicts"] = res.counters.get("libfuzzer_allocation_limit_artifacts_not_verdicts", 0) + 1
+                continue
+            key = "libfuzzer/" + V.symptom_key(err)
+            os.makedirs(replay_dir(prop), exist_ok=True)
+            rp = os.path.join(replay_dir(prop), "libfuzzer-s%d-w%d.json" % (seed, k))
+            data = b""
+            if arts:
+                with open(os.path.join(wd, arts[0]), "rb") as fh:
+                    data = fh.read()
+            with open(rp, "w") as fh:
+                json.dump({"property": prop, "key": key, "seed": seed, "input_bytes_hex": data.hex(), "input_text": data.decode("latin-1"),
+                           "how_to_replay": "build harness/fuzz_text.cpp with the clang-fuzz flavor and run the binary on a file holding these bytes", "report": err[-3000:]}, fh, indent=1)
+            res.viols.append({"key": key, "detail": err[-1500:], "replay": rp, "case": 0, "count": 1})
+    shutil.rmtree(wd, ignore_errors=True)
+    res.counters["libfuzzer_executed_inputs"] = executed
+    return {"workers": workers, "executed_inputs": executed, "edge_coverage_max_over_workers": cov, "workers_that_stopped_on_an_artifact": failed}
+
+
 def run_io(prop, tier, seed):
     t0 = time.time()
     plan = IO_PLAN[prop]
@@ -391,6 +454,8 @@ def run_io(prop, tier, seed):
         shutil.rmtree(wd, ignore_errors=True)
         coverage["openat_failures_injected_by_strace"] = injected
         coverage["counters"]["open_failure_calls"] = c.get("open_failure_calls", 0)
+    if prop == "C15" and tier == "thorough":
+        coverage["libfuzzer"] = run_libfuzzer_c15(prop, seed, res)
     if memcheck is not None:
         coverage["valgrind_memcheck"] = memcheck
     assume = list(ASSUME_COMMON)
